@@ -508,6 +508,9 @@ def check(ctx):
     _framing5(ctx.borrowed("R11", "C04", only=("R4",), key_contains="frame-round-trip::payload"), repo)
     ctx.rule("R12", "the acknowledgement leaves: the awaitable protocol's queue_send, built by its own constructor on a recording transport and a model clock, transmits every message it is handed - also several at the same instant - once, in order, to its destination (nothing queues or repeats an acknowledgement)")
     send_path_model(ctx, repo, "R12")
+    ctx.rule("R14", "every update arrives whole, however many changes it carries: the receive side of both stacks hands the datagram on byte for byte - the blocking engine asks its socket for a buffer that holds the longest datagram of the protocol (a partial update with 255 changes, its count being one byte; the model socket cuts to the size asked for, as UDP does), and neither path trims the content - a cut datagram no longer ends its frame, no handler claims it, and the whole message is neither applied nor acknowledged")
+    from ..enginemodel import receive_paths_verbatim as _rpv5
+    _rpv5(ctx, repo, "R14")
     ctx.rule("R13", "applying never fails on a value: every change is installed by replace_status_block_segment, which decodes every watched item from the new block - the decode of an enumeration is total over all 256 raw bytes (a byte one past the label list included), else the apply loop is left in the middle of a message: the rest of its changes is dropped, the blocking handler's list is not cleared and is replayed with every later message, the awaitable consumer ends (C11.R4's enum decode borrowed)")
     from .c11 import enum_decode_total as _edt5
     _edt5(ctx.borrowed("R13", "C11"), repo, "R4")
